@@ -2,7 +2,7 @@
 # tools/eval_seed.sh <patch.diff> <check id> [more check ids...]
 # applies the seeded change to /repo, runs the quick checks, and undoes it straight afterwards.
 set -u
-P="$1"; shift
+P="$(readlink -f "$1")"; shift
 cd /verif
 git -C /repo diff --quiet || { echo "/repo not clean"; exit 2; }
 git -C /repo apply "$P" || { echo "patch does not apply"; exit 2; }
